@@ -111,6 +111,12 @@ def run(ck):
     # duplicate / capacity / private-copy rules of the queue (R12.2-R12.5) on every path that appends, the reassembling queue's included
     from . import c12
     c12.enqueue_rules(ck, agg, net.queue_field(ck.prog))
+    # "byte-for-byte": the completed message is copied into the queue through frame.pack() / unpack() - the codec must not clip it (R11.8)
+    c11.header_rules(ck, agg)
+    # "incomplete or out-of-sequence fragments are discarded rather than spliced": the reassembling queue can tell only if it sees every
+    # fragment - the reception path hands each one over, whatever the delivery list holds (R05.7)
+    from . import c05
+    c05.handed_to_queue(ck, agg)
     agg.flush()
     ck.floor("R06", "fragment kinds x cache states", nsc, 5)
     ck.floor("R06.4", "re-delivery scenarios after completion", nre, 2)
